@@ -223,6 +223,7 @@ class VerifyMixin:
         self.cur_root_target_inline = c.target
         self.cur_inline_callees = c.inline_callees
         n0 = len(self.obligations)
+        self.bounded_unknown_loops = set()
         self.executed_nodes = set()
         st = State()
         for bg in (self.background or ()):
@@ -366,6 +367,12 @@ class VerifyMixin:
             self.dead_under_contract.setdefault(c.target, {})[suffix or '-'] = sorted(set(dead))
         elif suffix:
             self.dead_under_contract.setdefault(c.target, {})[suffix] = []
+        if self.bounded_unknown_loops:
+            # nothing is proved about this root: its failures stand (real paths), its passes do not count
+            lines = sorted(self.bounded_unknown_loops)
+            self.bounded_unknown_loops = set()
+            raise EngineError(f'loop(s) without a loop contract at line(s) {lines}: explored for at most {self.UNKNOWN_LOOP_BOUND} iterations '
+                              '(bounded): failures on the explored paths are reported, nothing is proved')
         return {'function': c.target, 'paths': len(terminals), 'normal_paths': n_normal,
                 'obligations': len(self.obligations) - n0, 'lines': (finfo.lineno, finfo.end_lineno),
                 'module_sha256': finfo.module.sha256}
